@@ -4,6 +4,7 @@ import (
 	"crypto/sha1"
 	"errors"
 	"fmt"
+	"os"
 	"sort"
 	"strings"
 	"sync"
@@ -28,6 +29,8 @@ type ExploreStats struct {
 	Samples             []string
 	PerProp             map[string]int64 // invariant evaluations per property
 	DrainSteps          int64
+	PickPoints          int64 // transitions at which the service chose among several waiting tags
+	ForcedPicks         int64 // additional histories run to cover the choices it did not make by itself
 }
 
 type node struct {
@@ -42,6 +45,11 @@ type result struct {
 	drained  int
 	hardErr  error
 	pathDesc string
+	// the last event started a tagging job and more than one tag was eligible: the tag the service
+	// picked and all eligible ones.  The explorer names the pick in the event and schedules the others.
+	pick  string
+	cands []string
+	retry bool // a named pick was not the one the service made in this run
 }
 
 // pcOf counts the api events of a path.
@@ -60,6 +68,14 @@ const maxDrain = 60
 // run replays a path on a fresh world, checks all invariants in the reached state, then drains
 // the parked jobs in canonical order and checks the quiescent state.
 func run(sc *Scenario, path []string, convBin string) (res result) {
+	res = run1(sc, path, convBin)
+	if res.retry {
+		res.hardErr = fmt.Errorf("replay divergence: the service did not make the named tag picks of [%s]", res.pathDesc)
+	}
+	return
+}
+
+func run1(sc *Scenario, path []string, convBin string) (res result) {
 	res.pathDesc = strings.Join(path, " ; ")
 	bin := ""
 	if sc.Converter {
@@ -75,8 +91,9 @@ func run(sc *Scenario, path []string, convBin string) (res result) {
 	for i, ev := range path {
 		en := w.Enabled(sc.Program, pc)
 		found := false
+		base, _, _ := strings.Cut(ev, PickSep)
 		for _, e := range en {
-			if e == ev {
+			if e == base {
 				found = true
 			}
 		}
@@ -87,7 +104,7 @@ func run(sc *Scenario, path []string, convBin string) (res result) {
 		nViews := len(w.Views)
 		// C07 at service level: delivering a merge result must not change what a fresh view shows
 		mergeBefore, mergeApplied := "", false
-		if i == len(path)-1 && ev == "step:merge" {
+		if i == len(path)-1 && base == "step:merge" {
 			if j := w.Parked("merge"); j != nil && j.Gate == "done" {
 				v := w.Mgr.GetView()
 				d, derr := ViewDigest(&v, false)
@@ -99,6 +116,10 @@ func run(sc *Scenario, path []string, convBin string) (res result) {
 			}
 		}
 		if err := w.Apply(ev); err != nil {
+			if errors.Is(err, ErrPick) {
+				res.retry = true
+				return
+			}
 			if errors.Is(err, ErrJobStuck) && i == len(path)-1 {
 				res.viol = append(res.viol, V{"C09", "c09.job-never-completes", err.Error()})
 				res.canon = "stuck:" + res.pathDesc
@@ -109,6 +130,18 @@ func run(sc *Scenario, path []string, convBin string) (res result) {
 		}
 		if strings.HasPrefix(ev, "api:") {
 			pc++
+		}
+		if len(w.LastCands) > 1 {
+			if !strings.Contains(ev, PickSep) {
+				if i != len(path)-1 {
+					res.hardErr = fmt.Errorf("replay divergence at step %d of [%s]: event %q started a tagging job with several eligible tags %v, which it did not when the history was recorded", i, res.pathDesc, ev, w.LastCands)
+					return
+				}
+				res.pick, res.cands = w.LastPick, w.LastCands
+			}
+		} else if strings.Contains(ev, PickSep) && len(w.LastCands) < 2 {
+			res.hardErr = fmt.Errorf("replay divergence at step %d of [%s]: event %q names a pick but eligible tags are %v", i, res.pathDesc, ev, w.LastCands)
+			return
 		}
 		if mergeApplied {
 			v := w.Mgr.GetView()
@@ -218,6 +251,34 @@ func Explore(sc *Scenario, convBin string, maxStates int64, deadline time.Time, 
 			st.CapHit = fmt.Sprintf("deadline while expanding depth %d (%d histories)", depth, len(frontier))
 			break
 		}
+		// environment choice: where the last event started a tagging job with several eligible tags, the
+		// history is renamed to carry the pick that was made and one history per other pick is added
+		// to this level (and run until the service makes that pick)
+		var extra []node
+		for i := range results {
+			r := &results[i]
+			if r.hardErr != nil || len(r.cands) < 2 {
+				continue
+			}
+			p := frontier[i].path
+			last := p[len(p)-1]
+			for _, c := range r.cands {
+				np := append(append([]string{}, p[:len(p)-1]...), last+PickSep+c)
+				if c == r.pick {
+					frontier[i].path = np
+				} else {
+					extra = append(extra, node{np})
+				}
+			}
+			st.PickPoints++
+		}
+		if len(extra) != 0 {
+			xr := make([]result, len(extra))
+			mc.ParFor(len(extra), func(i int) { xr[i] = run(sc, extra[i].path, convBin) }, nil)
+			frontier = append(frontier, extra...)
+			results = append(results, xr...)
+			st.ForcedPicks += int64(len(extra))
+		}
 		type cand struct {
 			path []string
 			h    [20]byte
@@ -262,6 +323,12 @@ func Explore(sc *Scenario, convBin string, maxStates int64, deadline time.Time, 
 			}
 			seen[h] = true
 			st.States++
+			if f := os.Getenv("VERIF_DUMP_STATES"); f != "" {
+				if fh, err := os.OpenFile(f, os.O_APPEND|os.O_CREATE|os.O_WRONLY, 0o644); err == nil {
+					fmt.Fprintf(fh, "##### %s\n%s\n", strings.Join(frontier[i].path, " ; "), r.canon)
+					fh.Close()
+				}
+			}
 			st.Quiescent[fmt.Sprintf("%x", hashOf(r.final))[:12]]++
 			if len(st.Samples) < 6 && (st.States%23 == 1) {
 				st.Samples = append(st.Samples, strings.Join(frontier[i].path, " ; "))
